@@ -279,7 +279,7 @@ def field_required(f, container_default=False):
 
 
 def gen_value_for_field(rng, f, depth):
-    if f["with"] == "w_len":
+    if f["with"] in ("w_len", "w_opt_len"):
         return '%s = "%s"' % (w(f["name"]), rng.choice(["abc", "", "hello"])) if not kebab_unreachable(f["name"]) else None
     if f["with"] == "w_fail":
         return None
